@@ -155,6 +155,28 @@ def add_extras(case, recipe, root, exp, res):
         exp.setdefault("flex", set()).add("weird/w.txt")
         exp["compliant"] = False
         res.cell("extra:dep5-synopsis-not-spdx")
+    if case["k"] % 4 == 1:
+        # an unparseable expression next to parseable ones and a copyright notice: the file contributes nothing at all
+        (root / "broken_expr.py").write_text(f"# SPDX-FileCopyrightText: 2007 Broken\n# SPDX-License-Identifier: {lid}\n# SPDX-License-Identifier: {lid} OR\nb = 1\n")
+        exp["covered"].add("broken_expr.py")
+        exp["missing_copyright_info"].add("broken_expr.py")
+        exp["missing_licensing_info"].add("broken_expr.py")
+        exp["compliant"] = False
+        res.cell("extra:unparseable-expression-next-to-good-ones")
+    if recipe["global_mode"] != "dep5" and case["k"] % 5 in (0, 1):
+        # a Meson subproject that brings its own REUSE.toml: covered (and then served by that REUSE.toml) only with the option
+        sp = root / "subprojects" / "libfoo"
+        sp.mkdir(parents=True, exist_ok=True)
+        (sp / "REUSE.toml").write_text(f'version = 1\n[[annotations]]\npath = "**"\nSPDX-FileCopyrightText = "2008 Sub Project"\nSPDX-License-Identifier = "{lid}"\n')
+        (sp / "foo.c").write_text("int foo;\n")
+        (sp / "inner").mkdir(exist_ok=True)
+        (sp / "inner" / "bar.c").write_text("int bar;\n")
+        (root / "subprojects" / "foo.wrap").write_text(hdr + "[wrap-file]\n")
+        exp["covered"].add("subprojects/foo.wrap")
+        if case["k"] % 5 == 0:
+            case["_meson"] = True
+            exp["covered"] |= {"subprojects/libfoo/foo.c", "subprojects/libfoo/inner/bar.c"}
+        res.cell("extra:meson-subproject-with-own-REUSE.toml:" + ("included" if case.get("_meson") else "excluded"))
     if recipe["global_mode"] != "dep5" and case["k"] % 2 == 0:
         nest = root / "nest" / "inner"
         nest.mkdir(parents=True, exist_ok=True)
@@ -182,7 +204,7 @@ def run_case(case, ctx):
             cwd, gargs = trees.place_lint(rng_for(ctx.seed, "c01place", case["k"]), root)
             if not gargs and not case["git"] and cwd != str(root):
                 gargs = ["--root", str(root)]
-            args = gargs + ["lint", "--json"]
+            args = gargs + (["--include-meson-subprojects"] if case.get("_meson") else []) + ["lint", "--json"]
             if not case["pool"]:
                 args = ["--no-multiprocessing"] + args
             r = run_cli(args, cwd=cwd)
